@@ -126,6 +126,9 @@ func runOpPair(a *args, res *result) {
 			continue
 		}
 		sweepOverlap(res, kind, stuckCh)
+		if a.prop != "C08" {
+			tripleSweep(res, kind, stuckCh)
+		}
 	}
 	vshim.SetTokenMode(false)
 	res.sample(map[string]any{"map_kinds": mapKinds, "cache_kinds": cacheKinds, "map_ops": len(mapPairOps()), "cache_ops": len(cachePairOps())})
@@ -447,4 +450,154 @@ func sweepOverlap(res *result, kind string, stuckCh chan string) {
 			return
 		}
 	}
+}
+
+// tripleSweep: three steps with time passing in between. A Set with a TTL of
+// 3 ns on a key that holds an expired-uncleaned value is suspended at its step
+// N1 (it has computed its expiry, or not yet); the clock moves on by 10 ns; a
+// DeleteExpired pass is suspended at its step N2 (it has taken its snapshot, or
+// not yet); the Set is resumed and completes; the pass is resumed. Exactly one
+// entry of that key is physically there at any time, so the oracle is exact: if
+// the key is gone in the end, the pass removed the value stored last and must
+// have reported exactly that one; if it is still there, the pass either removed
+// (and reported) the old value before the new one arrived, or found the new one
+// unexpired and removed nothing.
+func tripleSweep(res *result, kind string, stuckCh chan string) {
+	for N1 := int64(1); N1 < 40; N1++ {
+		aParkedAny := false
+		for N2 := int64(1); N2 < 300; N2++ {
+			vshim.SetVNow(epoch)
+			led := &ledger{}
+			c := newCache(cacheSpec{Flavor: kind, Ctor: "New", OptMask: 1 | 2 | 4, DefExp: time.Hour, Interval: 0, NKeys: 64, Callback: led.cb(1)})
+			for k := 10; k < 15; k++ {
+				c.SetForever(k, nextVal(k))
+			}
+			vOld, vNew := nextVal(opKey), nextVal(opKey)
+			c.Set(opKey, vOld, 5)
+			now := int64(epoch + 10)
+			vshim.SetVNow(now)
+			logCase("oppair triple-sweep %s N1=%d N2=%d", kind, N1, N2)
+			res.Evaluations++
+			vshim.SetTokenMode(true)
+			vshim.ResetGStep()
+			vshim.SetStepBudget(0)
+			vshim.SetMode(vshim.MGlobal | vshim.MPoll | vshim.MCount)
+			adone := make(chan struct{})
+			bdone := make(chan struct{})
+			vshim.ArmPark(N1)
+			go func() { c.Set(opKey, vNew, 3); close(adone) }()
+			var tokA *vshim.ParkToken
+			select {
+			case tokA = <-vshim.ParkedTokens():
+			case <-adone:
+			}
+			vshim.ArmPark(0)
+			if tokA == nil {
+				vshim.SetMode(0)
+				if !aParkedAny {
+					return // the Set has fewer than N1 steps: enumeration complete
+				}
+				break
+			}
+			aParkedAny = true
+			now += 10
+			vshim.SetVNow(now)
+			vshim.ArmPark(vshim.GStep() + N2)
+			vshim.ArmSpinNotify()
+			go func() { c.DeleteExpired(); close(bdone) }()
+			var tokB *vshim.ParkToken
+			bFinished := false
+			select {
+			case tokB = <-vshim.ParkedTokens():
+			case <-vshim.SpinNotified():
+			case <-bdone:
+				bFinished = true
+			}
+			vshim.ArmPark(0)
+			vshim.DisarmSpinNotify()
+			// resume the Set; it completes unless it needs something the pass holds
+			vshim.ArmSpinNotify()
+			tokA.Resume()
+			aFinished := false
+			stuck := ""
+			select {
+			case <-adone:
+				aFinished = true
+			case <-vshim.SpinNotified():
+			case stuck = <-stuckCh:
+			}
+			vshim.DisarmSpinNotify()
+			if tokB != nil {
+				tokB.Resume()
+			}
+			vshim.SetStepBudget(1 << 22)
+			for stuck == "" && !(aFinished && bFinished) {
+				ac, bc := adone, bdone
+				if aFinished {
+					ac = nil
+				}
+				if bFinished {
+					bc = nil
+				}
+				select {
+				case <-ac:
+					aFinished = true
+				case <-bc:
+					bFinished = true
+				case late := <-vshim.ParkedTokens():
+					late.Resume()
+				case stuck = <-stuckCh:
+				}
+			}
+			vshim.SetStepBudget(0)
+			vshim.SetMode(0)
+			if tokB != nil {
+				res.count("scenarios_parked", 1)
+				fp := newFP()
+				fp.addStr("triple-sweep" + kind)
+				fp.add(uint64(N1), uint64(N2))
+				res.nontrivial(fp.sum())
+			}
+			bad := func(sig, msg string) {
+				res.violate(violation{Class: "oppair", Sig: sig, Msg: fmt.Sprintf("%s, Set(ttl 3ns) suspended at its step %d, clock +10ns, DeleteExpired suspended at its step %d, Set resumed, pass resumed: %s", kind, N1, N2, msg),
+					Case: map[string]any{"kind": kind, "N1": N1, "N2": N2}})
+			}
+			if stuck != "" {
+				bad("calls do not return in the Set / DeleteExpired schedule", stuck)
+				return
+			}
+			led.mu.Lock()
+			var rep []any
+			for _, e := range led.entries {
+				if e.K == opKey {
+					rep = append(rep, e.V)
+				}
+			}
+			led.mu.Unlock()
+			present := c.Count() == 6
+			switch {
+			case c.Count() != 5 && c.Count() != 6:
+				bad("Count is wrong after a Set raced a DeleteExpired pass", fmt.Sprintf("Count()=%d, 5 permanent entries", c.Count()))
+				return
+			case present && !(len(rep) == 0 || (len(rep) == 1 && rep[0] == any(vOld))):
+				// the old value was either overwritten by the Set (silently) or removed by the pass before the Set landed
+				bad("DeleteExpired reports something else than the entry it removed", fmt.Sprintf("the key still holds the new value, so the pass removed the old one (%s) or nothing; reported: %v", fmtVal(vOld), fmtVals(rep)))
+				return
+			case !present && !(len(rep) == 1 && rep[0] == any(vNew)):
+				bad("DeleteExpired reports something else than the entry it removed", fmt.Sprintf("the key is gone, so the pass removed the value stored last (%s); reported: %v", fmtVal(vNew), fmtVals(rep)))
+				return
+			}
+			if tokB == nil && bFinished {
+				break // the pass has fewer than N2 steps at this N1
+			}
+		}
+	}
+}
+
+func fmtVals(vs []any) []string {
+	out := make([]string, len(vs))
+	for i, v := range vs {
+		out[i] = fmtVal(v)
+	}
+	return out
 }
